@@ -81,11 +81,13 @@ def rule_dash_doc(repo, res):
 
 
 def _encoder_job(args):
-    root, enc, gcls, dcls = args
+    root, enc, gcls, dcls = args[:4]
+    overrides = args[4] if len(args) > 4 else None
     repo = Repo(root)
     out = {"encoder": enc}
-    p = lang.Pairing(repo, enc, gcls, dcls)
+    p = lang.Pairing(repo, enc, gcls, dcls, overrides=overrides)
     out["default_pairing"] = gcls is None
+    out["variant"] = ", ".join(f"{k}={v}" for k, v in (overrides or {}).items()) or None
     out["grammar"], out["decoder"] = p.gcls, p.dcls
     bare = p.bare()
     out["bare_states"] = bare.nstates()
@@ -494,6 +496,9 @@ def analyse(repo):
     if len(ejobs) < 4:
         raise AnalysisError("anchor vanished: one of the four encoder classes")
     # encoder/grammar/decoder combinations bundled in pvl_validate.dialects that differ from the constructor defaults
+    # the other value of every boolean constructor option the string-writing methods read
+    vjobs = [(repo.root, e, None, None, {name: (not dflt)}) for e in lang.ENCODERS if repo.has_cls(e)
+             for (name, dflt) in lang.string_path_flags(repo, e)]
     have = {(e,) + lang.encoder_pairing(repo, e) for (_, e, _, _) in ejobs}
     for (enc, g, d) in lang.dialect_encoder_pairings(repo):
         if (enc, g, d) not in have:
@@ -503,13 +508,16 @@ def analyse(repo):
     try:
         with ProcessPoolExecutor(max_workers=min(12, os.cpu_count() or 1)) as ex:
             fe = [ex.submit(_encoder_job, j) for j in ejobs]
+            fv = [ex.submit(_encoder_job, j) for j in vjobs]
             fr = [ex.submit(_reader_job, j) for j in rjobs]
             enc = [f.result() for f in fe]
+            var = [f.result() for f in fv]
             rd = [f.result() for f in fr]
     except (OSError, PermissionError):
         enc = [_encoder_job(j) for j in ejobs]
+        var = [_encoder_job(j) for j in vjobs]
         rd = [_reader_job(j) for j in rjobs]
-    out = {"encoders": enc, "readers": rd}
+    out = {"encoders": enc, "readers": rd, "encoder_variants": var}
     _CACHE[key] = out
     return out
 
@@ -519,11 +527,13 @@ def rule_s1(repo, res, an, which="own"):
     """Bare-string inclusion: what encode_string writes without quotes must come
     back unchanged from the reader; decided class by class with a witness."""
     rule = "S1" if which == "own" else "S1-OMNI"
-    for e in an["encoders"]:
+    for e in an["encoders"] + an.get("encoder_variants", []):
         reader = f"{e['decoder']}/{e['grammar']}" if which == "own" else "OmniDecoder/OmniGrammar"
         if which != "own" and not e.get("default_pairing", True):
             continue
         ename = e["encoder"] if e.get("default_pairing", True) else f"{e['encoder']}({e['grammar']}, {e['decoder']})"
+        if e.get("variant"):
+            ename = f"{e['encoder']}({e['variant']})"
         e = dict(e, encoder=ename)
         for cname, ws in e["s1_" + which].items():
             ok = not ws
